@@ -15,6 +15,9 @@ Case (driver "view"):
                                                this CONF_CHANGED just before it answers the k-th command of the attach
                                                (k >= 1; never before the SETEVENTS was answered; past the end = right after)
    "steps": [{"op": "event", "changes": [[name, null | [lines...]], ...]},     another controller changed these
+             {"op": "save", "accept": bool, "held": [[[name, value], ...], ...]}  save() whose SETCONF Tor leaves unanswered
+                                               while it carries out and announces these foreign changes, one
+                                               CONF_CHANGED each; only then it applies (and announces) or refuses ours
              {"op": "edit", "o": name, "v": element, "case": k},               list option: read, append (left unsaved)
              {"op": "assign", "o": name, "v": value, "case": k},               assign (left unsaved)
              {"op": "save", "accept": bool},                                   save(); the reference Tor accepts / refuses (552)
@@ -47,7 +50,9 @@ RULE = ("Hypothesis-generated cases: an option table of 2..8 options over every 
         "CONF_CHANGED events (1..3 options each, 0/1/many values, bare key = unset, only real changes are "
         "announced), reads under four spellings of the name, read-append-save on list options, assign-save, "
         "socks_endpoint(), local edits/assignments left unsaved, save() accepted or refused, and (one chunk in four) a "
-        "local change that is still unsaved or was refused when Tor announces a change of the same option; with or "
+        "local change that is still unsaved or was refused when Tor announces a change of the same option, or (one in "
+        "eight) a save() whose SETCONF Tor leaves unanswered while it announces another controller's change of the "
+        "same / other options and then accepts or refuses; with or "
         "without Tor echoing our own SETCONFs as CONF_CHANGED. A real TorConfig "
         "is bootstrapped over a causal byte pipe from the reference store and every option is read back after "
         "bootstrap (on the attach route under all four spellings), after every event and after every save. Non-trivial = some list-typed option was changed "
@@ -75,6 +80,12 @@ ASSUMPTIONS = [
     "not generated until it is saved (which list object they would hit is inherently ambiguous); counted",
     "in-place edits while an assignment to the same option is pending are not generated (as in C10); "
     "socks_endpoint() is not called while SocksPort has an unsaved change",
+    "a save() left unanswered: Tor carries out the other controllers' changes first and our SETCONF last, and - "
+    "as it announces others' changes to us - announces ours too when it applies it (control-spec: CONF_CHANGED "
+    "goes to every subscribed controller), so after 250 the view must equal the store (ours is newer for the "
+    "options we sent); after 5xx an option announced while the SETCONF was unanswered must read as announced (not "
+    "an older snapshot, not the refused value), other refused options may read Tor's value or the refused one; "
+    "while the SETCONF is unanswered a read may show the announced value or the one on its way to Tor",
     "events during the attach: Tor emits them only after it has answered the SETEVENTS that subscribes; each "
     "GETCONF answer shows the reference store at the moment it is answered; after the attach completes the view "
     "must equal the store's final values whatever the order of answers and events was",
@@ -174,9 +185,27 @@ def cases(draw, max_steps=9):
     def chunk(draw):
         """One step, or a local change that is still pending (or was refused) when Tor announces a
         change of the same option by another controller."""
-        if draw(st.integers(0, 3)):
+        k = draw(st.integers(0, 7))
+        if k >= 3:
             return [draw(step())]
         o = draw(st.sampled_from(opts))
+        if k == 2:
+            # a save whose answer is outstanding while another controller changes the same option
+            seq = []
+            if simconf.is_list_type(o["type"]) and draw(st.booleans()):
+                seq.append({"op": "edit", "o": o["name"], "v": draw(_elements(o["type"])), "case": draw(spell)})
+            else:
+                seq.append(draw(assign(o)))
+            if draw(st.integers(0, 2)) == 0:
+                seq.append(draw(assign(draw(st.sampled_from(opts)))))
+            held = [[[o["name"], draw(_new_value(o))]]]
+            if draw(st.integers(0, 2)) == 0:
+                held.insert(draw(st.integers(0, 1)), draw(event(opts))["changes"])
+            seq.append({"op": "save", "accept": draw(st.sampled_from([False, False, True])), "held": held})
+            seq.append({"op": "read", "o": o["name"], "case": draw(spell)})
+            if draw(st.booleans()):
+                seq.append({"op": "save", "accept": True})
+            return seq
         if simconf.is_list_type(o["type"]) and draw(st.booleans()):
             seq = [{"op": "edit", "o": o["name"], "v": draw(_elements(o["type"])), "case": draw(spell)}]
         else:
@@ -205,7 +234,10 @@ def cases(draw, max_steps=9):
                                     ["assign_save"] * 2 + ["read"] * 2 + ["socks"] * 2 +
                                     ["edit", "assign", "save", "save"]))
         if kind == "save":
-            return {"op": "save", "accept": draw(st.sampled_from([True, True, False]))}
+            sv = {"op": "save", "accept": draw(st.sampled_from([True, True, False]))}
+            if draw(st.integers(0, 2)) == 0:
+                sv["held"] = [e["changes"] for e in draw(st.lists(event(opts), max_size=2))]
+            return sv
         if kind == "edit":
             o = draw(st.sampled_from(lists))
             return {"op": "edit", "o": o["name"], "v": draw(_elements(o["type"])), "case": draw(spell)}
@@ -292,6 +324,8 @@ class _Run(object):
                                    echo=case.get("echo", False), dependent_word=case.get("dep", "Dependent"))
         self.stepping = False
         self.waiting = []
+        self.hold = False
+        self.held = []
         self.pipe, self.srv = bootstrapped_pipe(self._handler)
         self.pre = {}               # option name -> local pre-assignment (attach route)
         self.attach = case.get("attach") is not None
@@ -303,6 +337,7 @@ class _Run(object):
         self.dead = False
         self.tracked_after_event = 0
         self.pending_event_checked = 0
+        self.overtaken_refused = 0
         self.late_boot_events = []
         boot_events = list(case.get("boot_events") or [])
         if not self.attach:
@@ -332,6 +367,9 @@ class _Run(object):
     def _handler(self, line):
         if self.stepping:
             self.waiting.append(line)
+            return None
+        if self.hold and line.split(" ")[0].upper() == "SETCONF":
+            self.held.append(line)          # Tor has not got round to it yet
             return None
         return self.sim.handler(line)
 
@@ -424,6 +462,8 @@ class _Run(object):
             return "bootstrap-view-wrong"
         if m.origin == "event":
             info = m.event_info or {}
+            if m.pend is not None and m.pend.get("refused") and m.pend.get("clobbered") and not m.alts:
+                return "announced-value-lost-after-refused-save"
             if m.pend is not None:
                 return "event-ignored-for-option-with-pending-local-change"
             if m.is_list and not isinstance(got, list):
@@ -544,21 +584,80 @@ class _Run(object):
             return True, True
         return False, False
 
-    def _save_all(self, accept, what):
-        """save() with everything that is pending.  Returns True if Tor acknowledged and all is well."""
+    def _while_unanswered(self, events, pend):
+        """Our SETCONF is on its way; Tor first carries out other controllers' changes and announces them."""
+        for changes in events:
+            names = []
+            for name, value in changes:
+                m = self.opts[name]
+                if value is None and m.typ not in ("String", "Filename", "LineList"):
+                    raise HarnessError("case unsets %s (%s) by event" % (name, m.typ))
+                if self.sim.get(name) == value:
+                    continue
+                self.sim.set(name, value)
+                names.append(name)
+            if not names:
+                continue
+            self.pipe.inject(self.sim.conf_changed(names))
+            if self.pipe.escaped:
+                self.res.bad("event-handler-raised", "%r while a save was unanswered" % (self.pipe.escaped[0],))
+                self.dead = True
+                return
+            for name in names:
+                m = self.opts[name]
+                m.want = cm.initial_view(self.sim, name)
+                m.alts = []
+                m.unsure = False
+                m.origin = "event"
+                m.event_info = {"multi_before_bare": False}
+                if m.pend is not None and self.held:
+                    # until Tor answers, a read may show the announced value or the one on its way to Tor
+                    m.alts = [m.pend["view"]]
+                    m.pend["clobbered"] = True
+                    m.pend["overtaken_in_flight"] = True
+                    self.res.label("event-while-save-unanswered:same-option:" + m.pend["kind"])
+                else:
+                    self.res.label("event-while-save-unanswered:other-option")
+            self.check_all("CONF_CHANGED %r while a save() was unanswered" % (names,))
+            if self.dead:
+                return
+
+    def _save_all(self, accept, what, held_events=None):
+        """save() with everything that is pending.  Returns True if Tor acknowledged and all is well.
+        With held_events Tor leaves the SETCONF unanswered while other controllers' changes (announced
+        to us) happen, then carries it out (announcing it like any change) or refuses it."""
         from txtorcon import TorProtocolError
         pend = [m for m in self.opts.values() if m.pend is not None]
         must = [m for m in pend if not m.pend["clobbered"]]
         if not accept:
             self.sim.reject_next(552, "Unrecognized option: the reference Tor was told to refuse this SETCONF")
         s0 = len(self.sim.setconfs)
+        self.hold = held_events is not None
         try:
             w = Watch(self.cfg.save())
         except Exception as e:
+            self.hold = False
             self.res.bad("save-raised", "%s: %r" % (what, e))
             self.dead = True
             return False
         self.pipe.pump()
+        self.hold = False
+        for m in pend:
+            m.alts.append(m.pend["view"])       # save() shows in the view what it is sending
+        if held_events is not None:
+            self.res.label("save-held-unanswered" if self.held else "held-save-had-nothing-to-send")
+            self._while_unanswered(held_events, pend)
+            if self.dead:
+                self.sim.cancel_rejects()
+                return False
+            echo = self.sim.echo
+            self.sim.echo = True        # a Tor that announces others' changes to us announces ours as well
+            for line in self.held:
+                r = self.sim.handler(line)
+                self.pipe.produce(r if isinstance(r, bytes) else wire.encode_reply(r))
+            self.held = []
+            self.sim.echo = echo
+            self.pipe.pump()
         self.sim.cancel_rejects()
         if self.pipe.escaped:
             self.res.bad("event-handler-raised", "%r during save (echo)" % (self.pipe.escaped[0],))
@@ -612,7 +711,12 @@ class _Run(object):
             for m in pend:
                 if m.name in grouped:
                     m.pend["refused"] = True
-                    m.alts.append(m.pend["view"])       # save() shows what it sent; Tor refused it; still pending
+                    if m.pend.pop("overtaken_in_flight", False):
+                        m.alts = []                     # announced while our SETCONF was unanswered: that is Tor's value
+                        self.res.label("refused-save-overtaken-by-event")
+                        self.overtaken_refused += 1
+                    else:
+                        m.alts.append(m.pend["view"])   # save() shows what it sent; Tor refused it; still pending
                 else:
                     m.pend = None
             try:
@@ -639,6 +743,8 @@ class _Run(object):
         for m in pend:
             named = m.name in grouped
             nvals = len(m.pend["vals"])
+            if m.pend.get("overtaken_in_flight"):
+                self.res.label("accepted-save-applied-after-announced-change")
             m.pend = None
             m.alts = []
             if not named:
@@ -752,8 +858,9 @@ class _Run(object):
             self.check_all("saving %s" % m.name)
 
     def do_save(self, s):
-        if self._save_all(bool(s.get("accept", True)), "save()") and not self.dead:
-            self.check_all("save()")
+        ok = self._save_all(bool(s.get("accept", True)), "save()", held_events=s.get("held"))
+        if not self.dead and (ok or s.get("held") is not None):
+            self.check_all("save() %s" % ("acknowledged" if ok else "refused"))
 
     def do_socks(self, s):
         from twisted.internet.protocol import Factory
@@ -952,6 +1059,28 @@ def _fixed_cases():
                              ev(("Nickname", ["theirs"])), rd("Nickname"), ev(("Nickname", None)), rd("Nickname"),
                              {"op": "edit", "o": "NodeFamily", "v": "a,b", "case": 0}, {"op": "save", "accept": False},
                              ev(("NodeFamily", ["c,d", "e,f"])), rd("NodeFamily"), {"op": "save", "accept": True}])
+    # a save() whose SETCONF is still unanswered when another controller's change of the same option is announced
+    t5 = [O("Log", "LineList", value=["notice stdout"]), O("NumCPUs", "Integer", value=["2"]),
+          O("SocksPort", "PortLines", value=["9050"]), O("Nickname", "String", value=["n"]),
+          O("AvoidDiskWrites", "Boolean", value=["0"])]
+    for echo in (False, True):
+        for acc in (False, True):
+            b = dict(base, echo=echo, opts=t5)
+            yield dict(b, steps=[{"op": "assign", "o": "Log", "v": ["debug stdout"], "case": 0},
+                                 {"op": "assign", "o": "NumCPUs", "v": 8, "case": 1},
+                                 {"op": "assign", "o": "SocksPort", "v": ["9999"], "case": 2},
+                                 {"op": "save", "accept": acc, "held": [[["Log", ["warn stdout", "info stderr"]], ["NumCPUs", ["4"]]],
+                                                                        [["SocksPort", ["9150"]], ["AvoidDiskWrites", ["1"]]]]},
+                                 rd("Log"), rd("NumCPUs"), {"op": "socks", "pick": None, "as_int": False},
+                                 {"op": "save", "accept": True}, {"op": "edit_save", "o": "Log", "v": "x", "case": 0}])
+            yield dict(b, steps=[{"op": "edit", "o": "Log", "v": "debug stdout", "case": 0},
+                                 {"op": "assign", "o": "Nickname", "v": "mine", "case": 0},
+                                 {"op": "save", "accept": acc, "held": [[["Log", None]], [["Nickname", ["theirs"]]]]},
+                                 rd("Log"), rd("Nickname"),
+                                 {"op": "save", "accept": not acc, "held": [[["Nickname", None], ["Log", ["a", "b"]]]]}, rd("Nickname")])
+            yield dict(b, steps=[{"op": "assign", "o": "NumCPUs", "v": 8, "case": 0},
+                                 {"op": "save", "accept": acc, "held": [[["AvoidDiskWrites", ["1"]]]]}, rd("NumCPUs"),
+                                 {"op": "save", "accept": acc, "held": []}])
 
 
 MANIFEST = {
@@ -976,10 +1105,20 @@ MANIFEST = {
 
 def run(ctx):
     ctx.enumerate("view", _fixed_cases(), name="fixed-scenarios", exhaustive=False)
-    ctx.search("view", cases(), quick=1000, thorough=6000)
+    ctx.search("view", cases(), quick=800, thorough=6000)
 
 
 MUTANTS = [
+    # CONF_CHANGED while our own SETCONF is unanswered
+    ("refused-value-written-back-into-view", "txtorcon/torconfig.py",
+     "                self.unsaved.setdefault(k, v)\n",
+     "                self.unsaved.setdefault(k, v)\n                self.config[k] = v\n"),
+    ("event-ignored-while-save-unanswered", "txtorcon/torconfig.py",
+     "            real_name = self._find_real_name(k)\n            if real_name in self.parsers:\n"
+     "                if real_name in self.list_parsers:",
+     "            real_name = self._find_real_name(k)\n"
+     "            if any(real_name in x for x in self._saves_in_flight):\n                continue\n"
+     "            if real_name in self.parsers:\n                if real_name in self.list_parsers:"),
     # CONF_CHANGED during the attach / for options with unsaved or refused local changes
     ("events-ignored-until-attach-completes", "txtorcon/torconfig.py",
      "        conf = parse_keywords(arg, multiline_values=False)\n",
